@@ -511,7 +511,9 @@ pub mod ctl {
         for i in 0..N {
             let stark = Tab { air: airs[i].clone() };
             let (total_helpers, _num_zs, helpers_by_ctl) = CrossTableLookup::num_ctl_helpers_zs_all(ctls, i, config.num_challenges, stark.constraint_degree());
-            let ctl_vars = CtlCheckVars::from_proof::<C>(i, &proofs[i].proof, ctls, &ctl_challenges, 0, total_helpers, &helpers_by_ctl);
+            // the table's own lookup helper columns precede the CTL columns among the auxiliary polynomials
+            let num_lookup_columns = stark.num_lookup_helper_columns(config);
+            let ctl_vars = CtlCheckVars::from_proof::<C>(i, &proofs[i].proof, ctls, &ctl_challenges, num_lookup_columns, total_helpers, &helpers_by_ctl);
             let mut ch = challenger.clone();
             let challenges = proofs[i].proof.get_challenges(&stark, &proofs[i].public_inputs, &mut ch, Some(&ctl_challenges), Some(&ctl_vars), true, config, None);
             verify_stark_proof_with_challenges(&stark, &proofs[i].proof, &challenges, Some(&ctl_vars), &proofs[i].public_inputs, config)?;
@@ -732,8 +734,16 @@ pub mod ctl {
             if pairs.len() > n1 { e.count("ctl: looked table too short for the generated pairs (skipped)"); continue; }
             for (i, (t, w)) in pairs.iter().enumerate() { for (j, &c) in data_cols.iter().enumerate() { traces[1][i][c] = fe(t[j]); } traces[1][i][2] = *w; }
             let boolean = |c: usize| (Kind::All, mul(loc(c), sub(loc(c), lit(1))));
-            let airs3: [Arc<Air>; 3] = [table_air(degree, vec![boolean(4), boolean(5)]), table_air(degree, vec![]), table_air(degree, vec![boolean(4)])];
-            let what = format!("CTL system {sys}: D={degree} tuple width={} tables={} looking sides={} linear/next columns={lin} rows=({n0},{n1},{n2})", data_cols.len(), if three { 3 } else { 2 }, spec.looking.len());
+            let mut airs3: [Arc<Air>; 3] = [table_air(degree, vec![boolean(4), boolean(5)]), table_air(degree, vec![]), table_air(degree, vec![boolean(4)])];
+            // every fourth system: table 0 also declares a column lookup of its own (column 0 looked up in
+            // itself with frequency 1), so that lookup helper columns and CTL columns share the auxiliary polynomials
+            let own_lookup = sys % 4 == 3 && degree == 3;
+            if own_lookup {
+                let mut a = (*airs3[0]).clone();
+                a.lookups = vec![LookupSpec { columns: vec![ColSpec::single(0)], table: ColSpec::single(0), freq: ColSpec::constant(1), filters: vec![FilterSpec::always()] }];
+                airs3[0] = Arc::new(a);
+            }
+            let what = format!("CTL system {sys}: D={degree} own lookup in table 0={own_lookup} tuple width={} tables={} looking sides={} linear/next columns={lin} rows=({n0},{n1},{n2})", data_cols.len(), if three { 3 } else { 2 }, spec.looking.len());
             let run = |traces: &Vec<Vec<Vec<F>>>, spec: &CtlSpec| -> String {
                 if three {
                     outcome::<3>(&airs3, &[traces[0].clone(), traces[1].clone(), traces[2].clone()], std::slice::from_ref(spec), &config)
